@@ -4,6 +4,7 @@ import (
 	"bytes"
 	"fmt"
 	"reflect"
+	"strings"
 	"unsafe"
 
 	"verifharness/core"
@@ -165,8 +166,80 @@ func c11Case(c *core.Ctx, idx int) {
 	}
 }
 
+type c11Grow struct {
+	ID   int            `plenc:"1"`
+	Name string         `plenc:"2,intern"`
+	Tag  string         `plenc:"3,intern"`
+	Key  map[string]int `plenc:"4"`
+}
+
+// c11Growth: many distinct values through one interned field of one long-lived instance, every
+// message decoded from the same mapped buffer, which is finally unmapped
+func c11Growth(c *core.Ctx) {
+	rec := c.Rec
+	p := newDefault()
+	sc, err := mon.NewScratch(8192)
+	if err != nil {
+		rec.ViolationAt(-1, "harness", err.Error(), nil)
+		return
+	}
+	lo, hi := sc.Range()
+	type kept struct{ s, clone string }
+	var all []kept
+	n := 2500
+	for i := 0; i < n; i++ {
+		v := c11Grow{ID: i, Name: fmt.Sprintf("customer-%05d-%d", i, c.Shard), Tag: fmt.Sprintf("t%d", i%7), Key: map[string]int{fmt.Sprintf("k%d", i): i}}
+		data, err := p.Marshal(nil, &v)
+		if err != nil {
+			rec.ViolationAt(-1, "marshal-error", err.Error(), nil)
+			return
+		}
+		in := sc.Mem[:len(data):len(data)]
+		copy(in, data)
+		var out c11Grow
+		if err := p.Unmarshal(in, &out); err != nil {
+			rec.ViolationAt(-1, "unmarshal-error", err.Error(), nil)
+			return
+		}
+		for j := range in {
+			in[j] = 'X'
+		}
+		rec.Eval(1)
+		for _, s := range []string{out.Name, out.Tag} {
+			pp := uintptr(unsafe.Pointer(unsafe.StringData(s)))
+			if pp >= lo && pp < hi {
+				rec.ViolationAt(-1, "decoded-aliases-input", fmt.Sprintf("after %d distinct values through one interned field, the decoded string %q points into the input buffer", i, v.Name), map[string]any{"distinct_values": i})
+				sc.Free()
+				return
+			}
+		}
+		if out.Name != v.Name || out.Tag != v.Tag {
+			rec.ViolationAt(-1, "decoded-aliases-input", fmt.Sprintf("value %d: decoded %q/%q, want %q/%q (after the input buffer was overwritten)", i, out.Name, out.Tag, v.Name, v.Tag), nil)
+			sc.Free()
+			return
+		}
+		all = append(all, kept{out.Name, strings.Clone(out.Name)})
+	}
+	sc.Free()
+	var bad string
+	fault := mon.Faulting(func() {
+		for i, k := range all {
+			if k.s != k.clone {
+				bad = fmt.Sprintf("value %d changed from %q to %q", i, k.clone, k.s)
+				return
+			}
+		}
+	})
+	if fault != "" || bad != "" {
+		rec.ViolationAt(-1, "decoded-aliases-input", fmt.Sprintf("interned strings after the input buffer was unmapped: %s %s", bad, fault), nil)
+		return
+	}
+	rec.Count("growth_distinct_interned_values", n)
+}
+
 func init() {
 	core.Register(&core.Prop{
+		Finish:    c11Growth,
 		ID:        "C11",
 		Technique: "aliasing monitor: deep snapshots, address-range overlap checks of every string/byte slice/map key, scribbling, and inputs in PROT_READ mmap regions ending at a PROT_NONE page that are munmapped before the decoded value is read",
 		Rule: "generated types (string-, byte-slice-, map-key-, intern-, null.String- and JSON-any-bearing shapes arise from the generator) x boundary-biased values. Per value: Marshal into a prefixed buffer with snapshot of value and prefix, overlap check of the returned bytes against all string/byte data of the value, scribble over the output; " +
